@@ -10,7 +10,7 @@
     own premise) and [priorities_above_min] (priority > math.MinInt64; at MinInt64 the real iterator
     dereferences a nil node, which the model reproduces as [select_panics]). *)
 From Coq Require Import List ZArith String Permutation Sorted.
-From Paloma Require Import Mempool.PriorityNonce Mempool.PriorityNonceProofs.
+From Paloma Require Import Mempool.PriorityNonce Mempool.PriorityNonceProofs Mempool.PriorityNonceApi Mempool.PriorityNonceApiProofs.
 From Paloma Require Gen.C19.
 Import ListNotations.
 Open Scope Z_scope.
@@ -85,3 +85,188 @@ Theorem source_shapes_as_modelled :
   Gen.C19.single_message_len = 1 /\ Gen.C19.min_value = - 2 ^ 63 /\ Gen.C19.max_int64 = 2 ^ 63 - 1.
 Proof. exact gen_source_shapes. Qed.
 Print Assumptions source_shapes_as_modelled.
+
+
+(** * Second round: the whole API, every configuration, every history *)
+
+(** [runc c ops]: the state after a history under configuration [c] (MaxTx, TxReplacement rule);
+    [pendc c ops]: the pending set computed from the history alone (an Insert is refused at MaxTx, a no-op
+    for MaxTx < 0, and an Insert of a pending (sender, nonce) REPLACES it unless the rule refuses).
+    [runc default_cfg = run] is the application's configuration; under the premise [pendc default_cfg = pending]. *)
+Theorem default_configuration_is_run : forall ops,
+  runc default_cfg ops = run ops /\ (unique_sender_nonce ops -> pending_latest ops = pending ops).
+Proof. exact (fun ops => conj (runc_default ops) (pending_latest_unique ops)). Qed.
+Print Assumptions default_configuration_is_run.
+
+(** WITHOUT the premise, for every configuration: Select never yields a (sender, nonce) twice, never one
+    that is not pending (removed, refused, never inserted), and each sender's in increasing sequence order *)
+Theorem select_sound_any_history : forall c ops,
+  NoDup (map tx_sn (select (runc c ops))) /\
+  (forall t, In t (select (runc c ops)) -> In (tx_sn t) (map tx_sn (pendc c ops))) /\
+  (forall s, StronglySorted Z.lt (map tx_nonce (filter (from s) (select (runc c ops))))).
+Proof. exact select_sound_proof. Qed.
+Print Assumptions select_sound_any_history.
+
+(** ... but "every pending transaction is yielded" NEEDS the premise: re-inserting (1,5) with a higher
+    priority leaves the old priority in the sender-index key and the transaction is never yielded *)
+Theorem select_complete_without_premise_refuted :
+  pending_latest dup_hidden_ops = [(2, 0, 50); (1, 5, 100)] /\
+  count (run dup_hidden_ops) = 2 /\
+  select (run dup_hidden_ops) = [(2, 0, 50)] /\ select_panics (run dup_hidden_ops) = false /\
+  priorities_above_min dup_hidden_ops.
+Proof. exact duplicate_insert_hides_tx_witness. Qed.
+Print Assumptions select_complete_without_premise_refuted.
+
+(** what the pool does when the premise is violated: the duplicate Insert replaces the index key, the score
+    and the counts; the sender index is left as it was (old priority in its key) *)
+Theorem duplicate_insert_behaviour : forall c ops s n p0 p1,
+  In (s, n, p0) (pendc c ops) ->
+  let st := runc c ops in let st' := insert s n p1 st in
+  count st' = count st /\
+  score_get s n (scores st') = (p1, 0) /\
+  In (mkKey p1 0 s n) (pidx st') /\
+  (forall k, In k (pidx st') -> k_sender k = s -> k_nonce k = n -> k = mkKey p1 0 s n) /\
+  (forall k, (k_sender k, k_nonce k) <> (s, n) -> (In k (pidx st') <-> In k (pidx st))) /\
+  sget s (sidx st') = sget s (sidx st) /\
+  (exists q, In (n, q) (sget s (sidx st'))) /\
+  (forall q, cnt_get q (pcounts st') = cnt_get q (pcounts st) - (if q =? p0 then 1 else 0) + (if q =? p1 then 1 else 0)).
+Proof. exact (fun c ops s n p0 p1 H => duplicate_insert_st _ _ s n p0 p1 (GInv_runc c ops) H). Qed.
+Print Assumptions duplicate_insert_behaviour.
+
+(** CountTx = |pending| for every history and configuration; never above MaxTx; zero for MaxTx < 0 *)
+Theorem count_and_capacity : forall c ops,
+  count (runc c ops) = Z.of_nat (List.length (pendc c ops)) /\
+  (0 < max_tx c -> count (runc c ops) <= max_tx c) /\
+  (max_tx c < 0 -> count (runc c ops) = 0).
+Proof. exact count_and_capacity_proof. Qed.
+Print Assumptions count_and_capacity.
+
+(** what Insert returns: ErrMempoolTxMaxCapacity iff the pool holds MaxTx transactions (also for a
+    replacement), nil without effect for MaxTx < 0, the rule's error iff it refuses (old, new) priority *)
+Theorem insert_outcome_from_history : forall c ops s n p,
+  snd (insert_cfg c s n p (runc c ops)) = insert_outcome c (pendc c ops) s n p.
+Proof. exact insert_outcome_proof. Qed.
+Print Assumptions insert_outcome_from_history.
+
+(** priorityCounts[q] = number of pending transactions of priority q (left undone in round one) *)
+Theorem priority_counts_exact : forall c ops q, cnt_get q (pcounts (runc c ops)) = occ q (pendc c ops).
+Proof. exact priority_counts_exact_proof. Qed.
+Print Assumptions priority_counts_exact.
+
+(** IsEmpty(..) == nil iff nothing is pending *)
+Theorem is_empty_iff_no_pending : forall c ops, is_empty (runc c ops) = true <-> pendc c ops = [].
+Proof. exact is_empty_proof. Qed.
+Print Assumptions is_empty_iff_no_pending.
+
+(** NextSenderTx: the sender's lowest pending sequence number; nil when the sender has nothing pending;
+    a nil dereference only for a sender whose transactions were all removed and only if the source lacks
+    the nil guard (the translated condition list decides [next_sender_nil_guard]) *)
+Theorem next_sender_tx_spec : forall c ops s,
+  match next_sender_tx s (runc c ops) with
+  | NTx n => (exists q, In (s, n, q) (pendc c ops)) /\ forall t, In t (pendc c ops) -> tx_sender t = s -> n <= tx_nonce t
+  | NNil => ~ sender_pending s (pendc c ops)
+  | NPanic => ~ sender_pending s (pendc c ops) /\ next_sender_nil_guard = false
+  end.
+Proof. exact next_sender_tx_proof. Qed.
+Print Assumptions next_sender_tx_spec.
+
+Theorem next_sender_tx_total_with_guard : forall st s, next_sender_nil_guard = true -> next_sender_tx s st <> NPanic.
+Proof. exact next_sender_guarded. Qed.
+Print Assumptions next_sender_tx_total_with_guard.
+
+Theorem next_sender_tx_unguarded_refuted :
+  next_sender_nil_guard = false -> next_sender_tx 1 (run [Insert 1 0 5; Remove 1 0]) = NPanic.
+Proof. exact next_sender_unguarded_witness. Qed.
+Print Assumptions next_sender_tx_unguarded_refuted.
+
+(** the iterator advanced one Next() at a time and iterated to the end (what baseapp's PrepareProposal
+    does through mempool.SelectBy's fallback loop) is the sequence the round-one theorems speak about *)
+Theorem iteration_stepwise_is_select : forall c ops,
+  fst (it_open (runc c ops)) = fst (select_op (runc c ops)) /\
+  collect (List.length (pendc c ops)) (fst (it_open (runc c ops))) (snd (it_open (runc c ops)))
+    = (map tx_sn (select (runc c ops)), select_panics (runc c ops)).
+Proof. exact iteration_eq_select_proof. Qed.
+Print Assumptions iteration_stepwise_is_select.
+
+(** iterator invalidation: the guarantees hold for an iteration that is not interleaved with Remove
+    (the SDK handler removes only after its loop); interleaved, a pending transaction is skipped ... *)
+Theorem interleaved_remove_truncates_refuted :
+  (exists it, a_it (arun default_cfg (firstn 4 interleave_truncated)) = SAt it /\ it_tx it = (1, 0)) /\
+  (exists it, a_it (arun default_cfg (firstn 6 interleave_truncated)) = SAt it /\ it_tx it = (2, 0)) /\
+  a_it (arun default_cfg interleave_truncated) = SDone /\
+  map key_tx (pidx (a_st (arun default_cfg interleave_truncated))) = [(1, 1, 9); (2, 0, 5)].
+Proof. exact interleaved_remove_truncates_witness. Qed.
+Print Assumptions interleaved_remove_truncates_refuted.
+
+(** ... or Next() dereferences nil although every priority is above MinInt64 *)
+Theorem interleaved_remove_panics_refuted :
+  (exists it, a_it (arun default_cfg (firstn 4 interleave_panics)) = SAt it /\ it_tx it = (1, 0)) /\
+  a_it (arun default_cfg interleave_panics) = SPanic.
+Proof. exact interleaved_remove_panics_witness. Qed.
+Print Assumptions interleaved_remove_panics_refuted.
+
+(** why admission gives the premise: CheckTx admits (s, n) only when n is the check-state sequence of s and
+    then increments it; if every Commit leaves the check-state sequence of each sender above all its
+    sequence numbers still pending in the application pool, (sender, nonce) is unique among pending *)
+Theorem admission_gives_unique_sender_nonce : forall l,
+  resets_above_pending [] l -> unique_sender_nonce (adm_ops l).
+Proof. exact admission_unique_proof. Qed.
+Print Assumptions admission_gives_unique_sender_nonce.
+
+(** the assumption is needed: a pending transaction that is not re-checked after a Commit *)
+Theorem admission_without_recheck_refuted :
+  adm_ops adm_norecheck = [Insert 0 0 5; Insert 0 1 5; Remove 0 0; Insert 0 1 9] /\
+  ~ resets_above_pending [] adm_norecheck /\ ~ unique_sender_nonce (adm_ops adm_norecheck).
+Proof. exact admission_without_recheck_witness. Qed.
+Print Assumptions admission_without_recheck_refuted.
+
+(** gates: the exported API of app/mempool (a new function or method breaks this), the configuration
+    struct, OnRead never used, the configuration and wiring app/app.go installs, the pinned libraries *)
+Theorem api_and_wiring_as_modelled :
+  Gen.C19.exported_api = ["DefaultPriorityMempool"; "DefaultPriorityNonceMempoolConfig"; "IsEmpty"; "NewDefaultTxPriority";
+    "NewPriorityMempool"; "PriorityNonceIterator.Next"; "PriorityNonceIterator.Tx"; "PriorityNonceMempool.CountTx";
+    "PriorityNonceMempool.Insert"; "PriorityNonceMempool.NextSenderTx"; "PriorityNonceMempool.Remove";
+    "PriorityNonceMempool.Select"]%string /\
+  Gen.C19.config_fields = ["TxPriority TxPriority[C]"; "OnRead func(tx sdk.Tx)";
+    "TxReplacement func(op, np C, oTx, nTx sdk.Tx) bool"; "MaxTx int"]%string /\
+  Gen.C19.on_read_uses = [] /\
+  Gen.C19.default_config_body = ["return PriorityNonceMempoolConfig[int64]{ TxPriority: NewDefaultTxPriority(), }"]%string /\
+  Gen.C19.default_mempool_body = ["return NewPriorityMempool(DefaultPriorityNonceMempoolConfig())"]%string /\
+  Gen.C19.app_wiring = ["bApp := baseapp.NewBaseApp(Name, logger, db, txConfig.TxDecoder(), baseAppOptions...)";
+    "nonceMempool := palomamempool.DefaultPriorityMempool()";
+    "abciPropHandler := baseapp.NewDefaultProposalHandler(nonceMempool, bApp)";
+    "bApp.SetMempool(nonceMempool)";
+    "bApp.SetPrepareProposal(abciPropHandler.PrepareProposalHandler())";
+    "bApp.SetProcessProposal(abciPropHandler.ProcessProposalHandler())"]%string /\
+  Gen.C19.library_pins = ["github.com/cometbft/cometbft v0.38.12"; "github.com/cosmos/cosmos-sdk v0.50.13";
+    "github.com/huandu/skiplist v1.2.0"]%string.
+Proof. exact gen_api_shapes. Qed.
+Print Assumptions api_and_wiring_as_modelled.
+
+(** every statement with an effect in Insert / Remove / reorderPriorityTies / Select / Tx (the first-signer
+    extraction [sig := sigs[0]], the early exits, the writes) is textually what the model mirrors — the
+    full lists are in the statement of [gen_api_effects]; NextSenderTx is the source as it is or with the nil guard *)
+Theorem api_effects_as_modelled :
+  (nth 5 Gen.C19.insert_effects "" = "sig := sigs[0]" /\ nth 3 Gen.C19.remove_effects "" = "sig := sigs[0]" /\
+   nth 8 Gen.C19.insert_effects "" = "nonce := sig.Sequence" /\
+   nth 6 Gen.C19.insert_effects "" = "sender := sdk.AccAddress(sig.PubKey.Address()).String()")%string /\
+  Gen.C19.insert_conds = ["mp.cfg.MaxTx > 0 && mp.CountTx() >= mp.cfg.MaxTx"; "mp.cfg.MaxTx < 0"; "err != nil"; "len(sigs) == 0"; "!ok";
+    "txExists"; "mp.cfg.TxReplacement != nil && !mp.cfg.TxReplacement(oldScore.priority, priority, senderIndex.Get(key).Value.(sdk.Tx), tx)"]%string /\
+  Gen.C19.remove_conds = ["err != nil"; "len(sigs) == 0"; "!ok"; "!ok"]%string /\
+  Gen.C19.select_conds = ["mp.priorityIndex.Len() == 0"]%string /\
+  Gen.C19.is_empty_conds = ["mp.priorityIndex.Len() != 0"; "mp.priorityCounts[k] != 0"; "mp.senderIndices[k].Len() != 0"]%string /\
+  Gen.C19.tx_effects = ["return i.senderCursors[i.sender].Value.(sdk.Tx)"]%string /\
+  List.length Gen.C19.insert_effects = 23%nat /\ List.length Gen.C19.remove_effects = 17%nat /\
+  List.length Gen.C19.reorder_effects = 10%nat /\ List.length Gen.C19.select_effects = 4%nat.
+Proof. exact gen_api_effects_summary. Qed.
+Print Assumptions api_effects_as_modelled.
+
+Theorem next_sender_tx_as_modelled :
+  (Gen.C19.next_sender_tx_conds = ["!ok"]%string /\
+   Gen.C19.next_sender_tx_effects = ["senderIndex, ok := mp.senderIndices[sender]"; "return nil"; "cursor := senderIndex.Front()";
+     "return cursor.Value.(sdk.Tx)"]%string /\ next_sender_nil_guard = false) \/
+  (Gen.C19.next_sender_tx_conds = ["!ok"; "cursor == nil"]%string /\
+   Gen.C19.next_sender_tx_effects = ["senderIndex, ok := mp.senderIndices[sender]"; "return nil"; "cursor := senderIndex.Front()";
+     "return nil"; "return cursor.Value.(sdk.Tx)"]%string /\ next_sender_nil_guard = true).
+Proof. exact gen_next_sender_tx. Qed.
+Print Assumptions next_sender_tx_as_modelled.
